@@ -22,7 +22,9 @@
 //
 // A third, small schedule-exploration scenario races "reply for a request
 // that is still queued behind a busy pipe" against the send completion.
+#ifndef _GNU_SOURCE
 #define _GNU_SOURCE
+#endif
 #include "vpeer.h"
 #include "vs.h"
 #include <stdlib.h>
@@ -1243,7 +1245,9 @@ static int
 affordable(double need)
 {
 	double rate = (g_exec > 2000 && g_wall > 1) ? g_exec / g_wall : 600;
-	return vx_time_left() > 30 + 1.4 * need / rate;
+	// thorough: stay ~5 min inside the global deadline (target <= 20 min)
+	double reserve = vx_is_thorough() ? 330 : 30;
+	return vx_time_left() > reserve + 1.4 * need / rate;
 }
 
 static void
